@@ -350,9 +350,26 @@ func IndentByParentheses(s string) string {
 
 	var indent int
 	var prev = normal
+	// tokenStart reports whether the lexer starts a new token at A[i]
+	var tokenStart = func(i int) bool {
+		if i == 0 || prev != normal {
+			return true
+		}
+		return A[i-1] == ',' || A[i-1] == '"'
+	}
 	for i := 0; i < len(A); i++ {
 		c := A[i]
 		switch {
+		case c == '"' && tokenStart(i):
+			// string literals are copied verbatim
+			appendRune(c, prev, indent)
+			for i++; i < len(A); i++ {
+				sb.WriteRune(A[i])
+				if A[i] == '"' {
+					break
+				}
+			}
+			prev = normal
 		case left[c]:
 			appendLeft(c, prev, indent)
 			indent++
